@@ -508,7 +508,10 @@ def stream_cli(env, progs, res, searching):
                     "observed": "Runtime.output read after the run differs from what the same library run printed: out=%r printed=%r"
                                 % (unhx(rec["out"])[-200:], unhx(rec["printed"])[-200:])})
         if v == "fail":
-            small = shrink_program(env, src, m)
+            n_fail = sum(1 for f in res["failures"] if f.get("stream") == "cli-vs-library")
+            if n_fail >= 6:
+                continue                      # counted in cli_verdicts; a handful of concrete cases is enough
+            small = shrink_program(env, src, m) if n_fail == 0 else src
             res["failures"].append({"key": "cli-vs-lib:" + common.chash(small), "stream": "cli-vs-library",
                                     "case": {"src": small, "mode": m, "kind": kind}, "observed": detail})
         elif v == "ok":
@@ -529,12 +532,18 @@ def check_one_program(env, src, mode, limit=None):
     return judge_cli(recs["0"], mode, fname or "", rc, so, se)
 
 
-def shrink_program(env, src, mode):
+def shrink_program(env, src, mode, budget=90.0):
+    """Line-wise delta debugging under a wall-clock budget (candidates that no longer terminate
+    are cut off after 3 s and count as not failing)."""
+    import time
     lines = src.splitlines()
-    if len(lines) > 60:
+    if len(lines) > 80:
         return src
+    t0 = time.time()
 
     def pred(c):
+        if time.time() - t0 > budget:
+            return False
         return check_one_program(env, "\n".join(c) + "\n", mode, limit=3)[0] == "fail"
 
     small = common.ddmin_lines(lines, pred, keep_head=0)
@@ -656,10 +665,12 @@ def stream_sequences(env, progs, res, n_seq, seq_len, recs):
             if want is None:
                 vs_lib["skipped"] += 1
             elif canon_overflow(unhx(rs[0]["res"])) != canon_overflow(want):
-                res["failures"].append({"key": "playground-vs-lib:" + common.chash(progs[i][1]), "stream": "playground-vs-library",
-                                        "case": {"src": progs[i][1], "kind": progs[i][0]},
-                                        "observed": "playground entry point returns %r, the library pipeline with separate arenas gives %r"
-                                                    % (unhx(rs[0]["res"])[-200:], want[-200:])})
+                vs_lib["different"] = vs_lib.get("different", 0) + 1
+                if vs_lib["different"] <= 5:
+                        res["failures"].append({"key": "playground-vs-lib:" + common.chash(progs[i][1]), "stream": "playground-vs-library",
+                                            "case": {"src": progs[i][1], "kind": progs[i][0]},
+                                            "observed": "playground entry point returns %r, the library pipeline with separate arenas gives %r"
+                                                        % (unhx(rs[0]["res"])[-200:], want[-200:])})
             else:
                 vs_lib["equal"] += 1
                 res["evaluations"] += 1
@@ -714,7 +725,12 @@ def stream_sequences(env, progs, res, n_seq, seq_len, recs):
             kinds[progs[i][0]] = kinds.get(progs[i][0], 0) + 1
         if bad:
             k, why = bad
-            small = shrink_sequence(env, [src for _, src in ps[:k + 1]])
+            n_fail = sum(1 for f in res["failures"] if f.get("stream") == "playground-sequences")
+            if n_fail >= 6:
+                continue
+            small = [src for _, src in ps[:k + 1]]
+            if n_fail == 0:
+                small = shrink_sequence(env, small)
             res["failures"].append({"key": "history-dependent:" + common.chash("\x00".join(small)), "stream": "playground-sequences",
                                     "case": {"sequence": small}, "observed": why})
         else:
